@@ -71,7 +71,15 @@ def _align_index_sweep(self, tier, seed):
     from contracts.common import native_sweep, sorted_env
 
     cases = [{"n": n, "method": m} for n in ((15, 60) if tier == "quick" else (15, 60, 200)) for m in METHODS]
-    return native_sweep(self, cases, envs=lambda case, rng: dict(sorted_env("t", case["n"], rng, -10, 10), tol=round(rng.uniform(0, 1.5), 3)), seed=seed)
+    def env(case, rng):
+        e = sorted_env("t", case["n"], rng, -10, 10)
+        pts = list(e.values())
+        # indices between target points and indices that coincide with one; tolerances below and above the spacing
+        e["x"] = rng.choice(pts) if rng.random() < 0.6 else round(rng.uniform(-11, 11), 3)
+        e["tol"] = rng.choice([0.0, 0.05, round(rng.uniform(0, 1.5), 3), 5.0])
+        return e
+
+    return native_sweep(self, cases, envs=env, tries=8, seed=seed)
 
 
 AlignIndex.bounded_checks = _align_index_sweep
